@@ -26,6 +26,7 @@ import (
 	"github.com/gobwas/ws"
 	"github.com/gobwas/ws/wsutil"
 
+	"verif/harness/gen"
 	"verif/harness/hx"
 	"verif/harness/ref"
 	"verif/harness/tx"
@@ -41,6 +42,10 @@ const (
 	tailBytes     = 32        // payload bytes actually present after the header
 )
 
+// deliveredTable: payload bytes delivered after an extreme header, around the
+// sizes at which a receive buffer is first grown.
+var deliveredTable = []int{1<<20 - 1, 1 << 20, 1<<20 + 1, 2<<20 + 1, 4<<20 + 1}
+
 var lengthTable = []int64{1<<31 - 1, 1 << 31, 1 << 32, 1 << 40, 1 << 47, 1 << 62, 1<<63 - 1}
 
 type xcase struct {
@@ -49,15 +54,18 @@ type xcase struct {
 	Masked bool   `json:"masked"`
 	Op     byte   `json:"opcode"`         // opcode of the frame announcing Length (final frame)
 	Frag   bool   `json:"after_fragment"` // preceded by a non-final one-byte text frame
+	// Delivered is the number of payload bytes actually sent after the header
+	// before the stream ends (0 = tailBytes).
+	Delivered int `json:"delivered,omitempty"`
 }
 
 func (c xcase) key() string {
-	return fmt.Sprintf("%s:%d:%v:%d:%v", c.Entry, c.Length, c.Masked, c.Op, c.Frag)
+	return fmt.Sprintf("%s:%d:%v:%d:%v:%d", c.Entry, c.Length, c.Masked, c.Op, c.Frag, c.Delivered)
 }
 
 func parseCase(s string) (c xcase, err error) {
 	p := strings.Split(s, ":")
-	if len(p) != 5 {
+	if len(p) != 6 {
 		return c, fmt.Errorf("bad case %q", s)
 	}
 	c.Entry = p[0]
@@ -66,8 +74,12 @@ func parseCase(s string) (c xcase, err error) {
 	}
 	c.Masked = p[2] == "true"
 	op, err := strconv.Atoi(p[3])
+	if err != nil {
+		return c, err
+	}
 	c.Op = byte(op)
 	c.Frag = p[4] == "true"
+	c.Delivered, err = strconv.Atoi(p[5])
 	return c, err
 }
 
@@ -85,13 +97,43 @@ func (c xcase) stream() []byte {
 	}
 	b = append(b, ref.EncodeHeader(h)...)
 	n := int64(tailBytes)
+	if c.Delivered > 0 {
+		n = int64(c.Delivered)
+	}
 	if c.Length < n {
 		n = c.Length
+	}
+	if c.Delivered > 0 {
+		return append(b, gen.Filled(int(n), 'a')...)
 	}
 	for i := int64(0); i < n; i++ {
 		b = append(b, byte('a'+i%26))
 	}
 	return b
+}
+
+// delivered is the number of payload bytes present after the header.
+func (c xcase) delivered() int {
+	if c.Delivered > 0 {
+		return c.Delivered
+	}
+	return tailBytes
+}
+
+// allocLimit is what decoding the stream may allocate: a small multiple of
+// what was delivered plus a constant, never the announced length.
+func (c xcase) allocLimit() uint64 {
+	return 4*uint64(c.delivered()) + allocBound
+}
+
+// inputDesc renders the stream for messages (long payloads abbreviated).
+func (c xcase) inputDesc() string {
+	b := c.stream()
+	if len(b) <= 64 {
+		return fmt.Sprintf("%x", b)
+	}
+	hl := len(b) - c.delivered()
+	return fmt.Sprintf("%x followed by %d payload bytes (pattern 61 62 63 …, gen.Filled)", b[:hl], c.delivered())
 }
 
 func (c xcase) headerLen() int {
@@ -385,8 +427,8 @@ func judge(c xcase, results map[string]xresult, tail string) xverdict {
 		return xverdict{true, "panic: " + r.Panic, r}
 	case r.Stall != "":
 		return xverdict{true, r.Stall, r}
-	case r.Alloc > allocBound || r.Sys > allocBound:
-		return xverdict{true, fmt.Sprintf("allocated %d bytes (address space +%d) for a stream of %d bytes", r.Alloc, r.Sys, len(c.stream())), r}
+	case r.Alloc > c.allocLimit() || r.Sys > c.allocLimit():
+		return xverdict{true, fmt.Sprintf("allocated %d bytes (address space +%d) for a stream that delivers %d payload bytes (bound %d)", r.Alloc, r.Sys, c.delivered(), c.allocLimit()), r}
 	}
 	return xverdict{false, "", r}
 }
@@ -489,9 +531,13 @@ func noteExtreme(c xcase, v xverdict) {
 	case v.res.Err == "":
 		label = "open/success-on-truncated-stream"
 	}
-	hx.Class("extreme/" + c.Entry + "/" + c.opName() + "/" + label)
+	dl := ""
+	if c.Delivered > 0 {
+		dl = "/delivered>=1MiB-1"
+	}
+	hx.Class("extreme/" + c.Entry + "/" + c.opName() + dl + "/" + label)
 	hx.NonTrivial(hx.Hash("extreme", c.key()), func() interface{} {
-		return map[string]interface{}{"target": "extreme", "case": c, "input_hex": fmt.Sprintf("%x", c.stream()), "outcome": label, "err": v.res.Err, "alloc": v.res.Alloc}
+		return map[string]interface{}{"target": "extreme", "case": c, "input_hex": c.inputDesc(), "outcome": label, "err": v.res.Err, "alloc": v.res.Alloc}
 	})
 }
 
@@ -568,6 +614,25 @@ func TestExtremeLengths(t *testing.T) {
 			}
 		}
 	}
+	// the same with a substantial part of the payload actually delivered
+	// before the stream ends: growth of the receive buffer has to follow what
+	// arrived, not what was announced (around and above the first 1 MiB)
+	lens := lengthTable
+	if !hx.Thorough() {
+		lens = []int64{1 << 31, 1 << 40, 1<<63 - 1}
+	}
+	for _, e := range []string{"ReadFrame", "ReadMessage", "ReadData", "Reader+ReadAll"} {
+		for _, d := range deliveredTable {
+			for _, l := range lens {
+				for _, m := range []bool{false, true} {
+					if hx.Mine(n) {
+						rest = append(rest, xcase{Entry: e, Length: l, Masked: m, Op: ref.OpBinary, Delivered: d})
+					}
+					n++
+				}
+			}
+		}
+	}
 	vs := runEach(t, rest)
 	for _, c := range rest {
 		v, ok := vs[c.key()]
@@ -576,8 +641,8 @@ func TestExtremeLengths(t *testing.T) {
 		}
 		noteExtreme(c, v)
 		if v.bad {
-			hx.Failf(t, map[string]interface{}{"case": c, "input_hex": fmt.Sprintf("%x", c.stream())},
-				"%s over a %d-byte stream announcing %d payload bytes: %s", c.Entry, len(c.stream()), c.Length, v.symptom)
+			hx.Failf(t, map[string]interface{}{"case": c, "input_hex": c.inputDesc()},
+				"%s over a stream announcing %d payload bytes and delivering %d: %s", c.Entry, c.Length, c.delivered(), v.symptom)
 			return
 		}
 	}
@@ -627,7 +692,7 @@ func TestHeaderAlloc(t *testing.T) {
 	for _, c := range cases {
 		hx.Eval()
 		r, ok := results[c.key()]
-		cd := map[string]interface{}{"case": c, "input_hex": fmt.Sprintf("%x", c.stream())}
+		cd := map[string]interface{}{"case": c, "input_hex": c.inputDesc()}
 		if !ok {
 			hx.Failf(t, cd, "header decoding by %s of a header announcing %d bytes: the process died: VERIF-ATTRIBUTED (crash text relayed from the child that decoded this input) %s", c.Entry, c.Length, tail)
 			return
@@ -654,7 +719,7 @@ func TestHeaderAlloc(t *testing.T) {
 		hx.Class("header-alloc/" + c.Entry)
 		if c.Length > capLen {
 			hx.NonTrivial(hx.Hash("header-alloc", c.key()), func() interface{} {
-				return map[string]interface{}{"target": "header-alloc", "case": c, "input_hex": fmt.Sprintf("%x", c.stream()), "alloc": r.Alloc}
+				return map[string]interface{}{"target": "header-alloc", "case": c, "input_hex": c.inputDesc(), "alloc": r.Alloc}
 			})
 		}
 	}
